@@ -1,4 +1,6 @@
 import PdtVerif.Lemmas.Controller
+import PdtVerif.Lemmas.ControllerLoop
+import PdtVerif.Lemmas.ControllerText
 /-!
 # C15 — training control decisions follow the stated rules and survive restarts
 
@@ -116,34 +118,40 @@ theorem C15_lr_iff (P : Params) (T : SpecState) (v : Rat) :
 
 /-- `continue_training()` right after an update agrees with the value the update returned. -/
 theorem C15_continue (P : Params) (S S' : State) (tr v : Rat) (o : Out)
-    (h : step P S tr v = .ok (S', o)) : continueTraining P S' = .ok o.cont := by
-  unfold step at h
-  simp only at h
-  split at h
-  · cases h
-  rename_i _ info _
-  split at h
-  · cases h
-  rename_i _ esInfo _
-  split at h
-  · cases h
-  rename_i _ rlrInfo _
-  have h' := Except.ok.inj h
-  have hS : S' = (stepCore P S S.hist.length info esInfo rlrInfo tr v).1 := by rw [h']
-  have ho : o = (stepCore P S S.hist.length info esInfo rlrInfo tr v).2 := by rw [h']
-  subst hS ho
-  unfold continueTraining
-  have hl : (stepCore P S S.hist.length info esInfo rlrInfo tr v).1.hist.length - 1
-      = S.hist.length := by simp [stepCore]
-  rw [hl]
-  have hg : getInfo (stepCore P S S.hist.length info esInfo rlrInfo tr v).1.hist
-      (S.hist.length : Int)
-      = .ok (stepCore P S S.hist.length info esInfo rlrInfo tr v).2.row := by
-    apply getInfo_ok
-    simp [stepCore]
-  simp only [hg]
-  simp only [stepCore]
-  congr
+    (h : step P S tr v = .ok (S', o)) : continueTraining P S' = .ok o.cont :=
+  continue_after_step P S S' tr v o h
+
+/-- **C15_continue_at**: `continue_training(e)` with an explicit epoch, asked at any later time of an
+uninterrupted run: for every recorded epoch `e ≥ 1` it is the value `update_for_epoch` returned at
+epoch `e`; for `e = 0` (nothing recorded yet) it is `True`. -/
+theorem C15_continue_at (P : Params) (hP : P.WF) (g : List Rat) (ms : List (Rat × Rat)) :
+    ∃ S outs, run P (init P g) ms = .ok (S, outs) ∧
+      continueTrainingAt P S 0 = .ok true ∧
+      ∀ (i : Nat) (o : Out), outs[i]? = some o → continueTrainingAt P S (i + 1) = .ok o.cont := by
+  obtain ⟨S, outs, hr, _, hh⟩ := C15_no_keyerror P hP g ms
+  obtain ⟨_, hrows⟩ := run_rows ms _ S outs hr
+  refine ⟨S, outs, hr, ?_, ?_⟩
+  · have h0 : S.hist[0]? = some (row0 P) := by rw [hh]; rfl
+    rw [continueTrainingAt_row h0 rfl]
+    have h1 : (row0 P).esCd ≠ 0 := by
+      have := hP.esPat
+      simp only [row0]
+      omega
+    have h2 : budgetCont P (row0 P).epoch = true := by
+      unfold budgetCont
+      cases P.numEpochs with
+      | none => rfl
+      | some n =>
+        by_cases hn : n = 0
+        · simp [hn]
+        · simp only [hn, if_false]
+          exact decide_eq_true (Nat.pos_of_ne_zero hn)
+    simp [contOfRow, h1, h2]
+  · intro i o hi
+    obtain ⟨hc, he⟩ := hrows i o hi
+    have hrow : S.hist[i + 1]? = some o.row := by
+      rw [hh, List.getElem?_cons_succ, List.getElem?_map, hi]; rfl
+    rw [continueTrainingAt_row hrow (by rw [he]; simp [init]; omega), hc]
 
 /-! ### the hypotheses are satisfiable, the statements are not vacuous -/
 
@@ -174,6 +182,97 @@ example : (match run exP (init exP [1]) exMs with
     = some ([(true, none), (true, none), (true, some (1/2)), (false, none), (false, some (1/4))], [1/4]) := by
   decide +kernel
 
+/-! ## the documented training loops: `liveRun` is not a restriction on them -/
+
+/-- **C15_until_stop**: what "the rules up to the first stop" (`specUntilStop`) is: the rules' outputs
+on the first `k` epochs, where no epoch before the `k`-th says stop and, unless the metric stream
+ran out, the `k`-th does. -/
+theorem C15_until_stop (P : Params) (T : SpecState) (vs : List Rat) :
+    specUntilStop P T vs = (specRun P T (vs.take (specUntilStop P T vs).length)).2 ∧
+    (specUntilStop P T vs).length ≤ vs.length ∧
+    (∀ o ∈ (specUntilStop P T vs).dropLast, o.stop = false) ∧
+    ((specUntilStop P T vs).length < vs.length →
+      ∃ o, (specUntilStop P T vs).getLast? = some o ∧ o.stop = true) :=
+  specUntilStop_spec P vs T
+
+/-- **C15_loop** — no side condition.  For every parameter setting and every stream `ms` of metrics
+the epochs would produce, the two documented loops
+`for …: if not controller.update_for_epoch(…): break` (`breakLoop`) and
+`while controller.continue_training(): …; controller.update_for_epoch(…)` (`whileLoop`)
+
+* never raise, run the same epochs and end in the same state;
+* run exactly the epochs the rules allow: the returned values are those of the rules up to and
+  including the first epoch at which the rules say stop (budget reached, or early stopping enabled
+  and `patience` consecutive post-burn-in epochs failed to undercut the reference by the threshold);
+* are a prefix of the unconditional run, and that prefix satisfies `liveRun` — the hypothesis of
+  `C15_stop` and `C15_ref_epoch` holds for everything a caller following the documented protocol
+  can do.  Calling `update_for_epoch` again after it returned `False` is outside the protocol (the
+  code then clamps the countdown and slides the reference: modelled and compared, not specified). -/
+theorem C15_loop (P : Params) (hP : P.WF) (g : List Rat) (ms : List (Rat × Rat)) :
+    ∃ S outs, breakLoop P (init P g) ms = .ok (S, outs) ∧
+      whileLoop P (init P g) ms = .ok (S, outs) ∧
+      outs.length ≤ ms.length ∧
+      run P (init P g) (ms.take outs.length) = .ok (S, outs) ∧
+      liveRun P (specInit P g) (vals (ms.take outs.length)) ∧
+      outs.map (·.cont) = (specUntilStop P (specInit P g) (vals ms)).map (fun o => !o.stop) := by
+  have hl : (specInit P g).es.fails < P.esPat := by
+    have := hP.esPat
+    simp only [specInit]
+    omega
+  obtain ⟨S, outs, hb, hlen, hr, hlive, hc⟩ :=
+    breakLoop_sim hP ms _ _ (init_invU P hP g) (init_invEs P g) hl
+  refine ⟨S, outs, hb, ?_, hlen, hr, hlive, hc⟩
+  rw [whileLoop_eq_breakLoop ms _ (continueTraining_init P hP g)]
+  exact hb
+
+/-- **C15_stop_loop**: `C15_stop` and the early-stopping half of `C15_ref_epoch` for the loops,
+with the `liveRun` hypothesis discharged: after the loop has run `k` epochs (for any stream),
+the returned values are `¬ stop` of the rules on those `k` epochs, and the index the code would
+compute next, `epoch - patience + es_patience_cd - 1`, is the epoch at which the rules last reset
+the early-stopping patience count. -/
+theorem C15_stop_loop (P : Params) (hP : P.WF) (g : List Rat) (ms : List (Rat × Rat)) :
+    ∃ S outs L, whileLoop P (init P g) ms = .ok (S, outs) ∧
+      let k := outs.length
+      let T := (specRun P (specInit P g) (vals (ms.take k))).1
+      outs.map (·.cont) = (specRun P (specInit P g) (vals (ms.take k))).2.map (fun o => !o.stop) ∧
+      S.hist[k]? = some L ∧
+      esEpochOf P (k + 1) L = (T.es.refEpoch : Int) ∧
+      (∃ r, S.hist[T.es.refEpoch]? = some r ∧ r.val = T.es.ref) ∧
+      L.esCd = (P.esPat : Int) - (T.es.fails : Int) := by
+  obtain ⟨S, outs, _, hw, hlen, hr, hlive, _⟩ := C15_loop P hP g ms
+  obtain ⟨S1, outs1, hr1, hstop⟩ := C15_stop P hP g (ms.take outs.length) hlive
+  obtain ⟨S2, outs2, L, hr2, _, hL, hfacts⟩ := C15_ref_epoch P hP g (ms.take outs.length) hlive
+  rw [hr] at hr1 hr2
+  simp only [Except.ok.injEq, Prod.mk.injEq] at hr1 hr2
+  obtain ⟨rfl, rfl⟩ := hr1
+  obtain ⟨rfl, rfl⟩ := hr2
+  have hk : (ms.take outs.length).length = outs.length := by
+    rw [List.length_take]; omega
+  rw [hk] at hL hfacts
+  simp only at hfacts
+  exact ⟨S, outs, L, hw, hstop, hL, hfacts.1, hfacts.2.1, hfacts.2.2.1⟩
+
+/-- on the example: the loop runs 4 of the 5 epochs (early stopping fires at the 4th) -/
+example : (match whileLoop exP (init exP [1]) exMs with
+    | .ok (_, outs) => some (outs.map (·.cont))
+    | .error _ => none) = some [true, true, true, false] := by decide +kernel
+
+example : ((specUntilStop exP (specInit exP [1]) (vals exMs)).map (·.stop))
+    = [false, false, false, true] := by decide +kernel
+
+/-- **C15_lr_unsynced**: `C15_lr` for an optimizer that was never synchronised with
+`log10_learning_rate` (no `load_model_and_optimizer_for_epoch` on the fresh controller, any rates in
+the param groups): the rate the code multiplies is the recorded one, and at every reduction every
+group is overwritten with the new recorded rate — before the first reduction the groups keep their
+own rates. -/
+theorem C15_lr_unsynced (P : Params) (hP : P.WF) (g : List Rat) (ms : List (Rat × Rat)) :
+    ∃ S outs, run P (initRaw P g) ms = .ok (S, outs) ∧
+      outs.map (·.setLr) = (specRun P (specInitRaw P g) (vals ms)).2.map lrAction ∧
+      outs.map (·.row.lr) = (specRun P (specInitRaw P g) (vals ms)).2.map (fun o => some o.lr) ∧
+      S.groups = (specRun P (specInitRaw P g) (vals ms)).1.groups := by
+  obtain ⟨S, outs, hr, hU, h1, h2, _⟩ := run_simU hP ms _ _ (initRaw_invU P hP g)
+  exact ⟨S, outs, hr, h1, h2, hU.groups⟩
+
 /-! ## what the rules' state means on the raw metric sequence -/
 
 /-- **C15_spec_window**: the state of the rules after the validation metrics `vs` is what the
@@ -198,16 +297,136 @@ example : (specRun exP (specInit exP [1]) (vals exMs)).1.es.refEpoch = 2 ∧
     (specRun exP (specInit exP [1]) (vals exMs)).1.es.fails = 3 ∧
     (specRun exP (specInit exP [1]) (vals exMs)).1.rlr.refEpoch = 5 := by decide +kernel
 
-/-! ## the integer columns of the history file -/
+/-! ## the text of the history file -/
 
 /-- **C15_int_roundtrip**: an epoch number / countdown / integer user entry printed with
 `"{:0wd}"` (any width) and read back with `int(...)` is the same number. -/
-theorem C15_int_roundtrip (w n : Nat) : parseNat (fmtNat w n) = some n := by
-  rw [parseNat_eq]
-  unfold fmtNat
-  simp only [List.foldl_append, parse_zeros, parse_natDigits]
+theorem C15_int_roundtrip (w n : Nat) : parseNat (fmtNat w n) = some n := parseNat_fmtNat w n
 
-example : fmtNat 3 7 = ['0', '0', '7'] ∧ fmtNat 2 1234 = ['1', '2', '3', '4'] := by decide
+/-- … and so is every (possibly negative) integer: `int("{:0wd}".format(n)) = n`. -/
+theorem C15_int_text (w : Nat) (n : Int) : parseInt (fmtInt w n) = some n := parseInt_fmtInt w n
+
+example : fmtNat 3 7 = ['0', '0', '7'] ∧ fmtNat 2 1234 = ['1', '2', '3', '4'] ∧
+    fmtInt 5 (-42) = ['-', '0', '0', '4', '2'] := by decide
+
+/-- **C15_float_text** — the text layer of the float columns, for **all** values and every
+precision `sig ≥ 1`: `float(...)` applied to the characters `[-]d.dddde±XX` that
+`"{:.{sig-1}e}".format(x)` writes is `rt x` — the value of the printed record `fmtSci`, rounded.
+(Inside: `exp10` really is the decimal exponent, so the mantissa has exactly `sig` digits, and the
+characters denote `±mantissa · 10^(exp - (sig - 1))`.) -/
+theorem C15_float_text (P : Params) (hsig : 1 ≤ P.sig) (x : Rat) :
+    parseFloat P (fmtFloat P.sig x) = some (rt P x) := by
+  unfold parseFloat
+  rw [decValue_fmtFloat P.sig hsig x]
+  rfl
+
+/-- on the printed grid (`rt x = x`) write-then-read of the text is the identity -/
+theorem C15_float_text_grid (P : Params) (hsig : 1 ≤ P.sig) (x : Rat) (hx : rt P x = x) :
+    parseFloat P (fmtFloat P.sig x) = some x := by
+  rw [C15_float_text P hsig x, hx]
+
+example : fmtFloat 5 (117649 / 1000000) = "1.1765e-01".toList ∧
+    fmtFloat 5 (-25 / 2) = "-1.2500e+01".toList ∧ fmtFloat 1 7 = "7e+00".toList := by decide +kernel
+
+/-- **C15_csv_roundtrip** — the csv layer, for all records and **all** field contents (commas,
+double quotes, carriage returns and line feeds included): what `csv.reader` reads from the file
+(opened with `newline=""`, i.e. the tree with `fixes/C15-csv-newline.diff`) is exactly the list of
+records `csv.writer` was given. -/
+theorem C15_csv_roundtrip (recs : List (List (List Char))) :
+    csvRead (recs.flatMap csvRecord) = recs := csvRead_csvWrite recs
+
+example : csvRecord ["a,b".toList, "x\"y".toList, [], "c\rd\ne".toList]
+    = "\"a,b\",\"x\"\"y\",,\"c\rd\ne\"\r\n".toList := by decide
+
+/-- **C15_file_reread** — the whole file.  Rows written one by one by `save_info_to_hist` (format
+strings of the controller's columns and of the declared user entries, `csv.writer`) and read back
+by `update_cache` (`csv.DictReader`, column lookup by name, `int` / `float` / declared type) are,
+row by row, the record-level re-read used in all restart theorems: `rtRow` on the controller's
+columns (integers exact, floats through `rt`) and `rtEntry = typ ∘ fmt.format` on every user
+entry.  The re-read raises exactly when a user-entry conversion raises. -/
+theorem C15_file_reread (P : Params) (decls : List EntryDecl) (rows : List RowE)
+    (hwf : FileWF P decls rows) (text : List Char) (ht : fileText P decls rows = some text) :
+    readHist P decls text = optAll (rows.map (rtRowE P decls)) :=
+  readHist_fileText P decls rows hwf text ht
+
+/-- **C15_restart_text**: the `restart` of the restart theorems *is* the restart through the
+characters of the file (`restartText`: write every recorded row, read the file back, rebuild row 0):
+same controller state, and every user entry went through `rtEntry` once. -/
+theorem C15_restart_text (P : Params) (decls : List EntryDecl) (S : State) (users : List (List EVal))
+    (hlen : users.length = (S.hist.drop 1).length)
+    (hwf : FileWF P decls
+      (List.zipWith (fun r u => ({ row := r, user := u } : RowE)) (S.hist.drop 1) users))
+    (text : List Char)
+    (ht : fileText P decls
+      (List.zipWith (fun r u => ({ row := r, user := u } : RowE)) (S.hist.drop 1) users) = some text)
+    (S' : State) (users' : List (List EVal))
+    (h : restartText P decls S users = some (S', users')) :
+    S' = restart P S ∧ users'.length = users.length ∧
+    ∀ (i : Nat) (us us' : List EVal), users[i]? = some us → users'[i]? = some us' →
+      rtUsers P.rnd decls us = some us' :=
+  restartText_eq P decls S users hlen hwf text ht S' users' h
+
+/-- **C15_entries** — user-defined entries are stored and returned with their declared types.
+For one entry declared `add_entry(name, typ, fmt)` and a value `v` handed to `update_for_epoch`,
+`rtEntry = typ(fmt.format(v))` is what any later `get_info` returns once the row has been re-read
+from the file (`C15_file_reread`, `C15_restart_text`); then
+
+* whatever comes back has the declared type (for every format, faithful or not);
+* an `int` entry with `"{}"`, `"{:d}"`, `"{:0wd}"` or `"{!r}"` comes back as the same integer
+  (every integer, every width);
+* a `str` entry with `"{}"` or `"{:s}"` comes back as the same string (every string: the csv layer
+  is `C15_csv_roundtrip`);
+* a `float` entry with `"{:.{sig-1}e}"` comes back as `float` of its `sig`-digit print — the same
+  value exactly when it is on that grid. -/
+theorem C15_entries (rnd : Rat → Rat) (name : List Char) :
+    (∀ (d : EntryDecl) (v v' : EVal), rtEntry rnd d v = some v' → v'.typ = d.typ) ∧
+    (∀ (f : EFmt) (n : Int), (f = .plain ∨ (∃ w, f = .dec w) ∨ f = .r) →
+      rtEntry rnd ⟨name, .int, f⟩ (.int n) = some (.int n)) ∧
+    (∀ (f : EFmt) (t : List Char), (f = .plain ∨ f = .s) →
+      rtEntry rnd ⟨name, .str, f⟩ (.str t) = some (.str t)) ∧
+    (∀ (sig : Nat) (x : Rat), 1 ≤ sig →
+      rtEntry rnd ⟨name, .flt, .sci sig⟩ (.flt x) = some (.flt (rnd (sciValue sig (fmtSci sig x))))) :=
+  ⟨fun _ _ _ h => rtEntry_typ h, fun f n hf => rtEntry_int rnd name f n hf,
+   fun f t hf => rtEntry_str rnd name f t hf, fun sig x hs => rtEntry_sci rnd name sig hs x⟩
+
+/-- **C15_repr_text** — `float` entries with the default format `"{}"` (or `"{!r}"`): `repr(x)` is
+modelled as the shortest digit string (1…17 digits, the closer neighbour first) that reads back as
+`x`, laid out in fixed notation for `1e-4 ≤ |x| < 1e16` and exponent notation otherwise
+(`reprText`; compared character by character with Python on every run).  Whenever such a digit
+string exists, `float(repr(x)) = x` through the characters — in particular for binary64
+(`roundF64` is odd: `roundBits_neg`).  That a digit string of at most 17 digits exists for every
+binary64 value is not proved (`reprText = none` never occurred). -/
+theorem C15_repr_text (rnd : Rat → Rat) (hodd : ∀ v, rnd (-v) = -(rnd v)) (x : Rat) (t : List Char)
+    (h : reprText rnd x = some t) :
+    (decValue t).map rnd = some x ∧
+    ∀ (name : List Char) (f : EFmt), (f = .plain ∨ f = .r) →
+      rtEntry rnd ⟨name, .flt, f⟩ (.flt x) = some (.flt x) :=
+  ⟨reprText_reads_back rnd hodd x t h, fun name f hf => rtEntry_repr rnd hodd name f hf x t h⟩
+
+theorem C15_roundF64_odd (q : Rat) : roundF64 (-q) = -(roundF64 q) := roundBits_neg 53 q
+
+example : (reprText roundF64 (roundF64 (1 / 10))).map String.ofList = some "0.1" ∧
+    (reprText roundF64 (-(987654321 / 8))).map String.ofList = some "-123456790.125" ∧
+    (reprText roundF64 (roundF64 (1 / 100000))).map String.ofList = some "1e-05" ∧
+    (reprText roundF64 (10 ^ 16)).map String.ofList = some "1e+16" ∧
+    (reprText roundF64 1500).map String.ofList = some "1500.0" := by decide +kernel
+
+/-- a file with two user entries (a string with a comma, a quote, a carriage return and a line
+feed; a zero-padded negative integer), written and re-read: same rows, same entries -/
+def exDecls : List EntryDecl :=
+  [⟨"note".toList, .str, .plain⟩, ⟨"count".toList, .int, .dec 3⟩]
+
+def exRowsE : List RowE :=
+  [⟨{ epoch := 1, esResume := 0, esCd := 2, rlrResume := 0, rlrCd := 1, lr := some (1/2),
+      train := some 2, val := some (3/4) }, [.str "a,\"b\"\rc\n".toList, .int (-7)]⟩]
+
+example : (fileText exP exDecls exRowsE).map String.ofList
+    = some ("epoch,es_resume_cd,es_patience_cd,rlr_resume_cd,rlr_patience_cd,lr,train_met,val_met," ++
+        "note,count\r\n01,0,2,0,1,5.0000e-01,2.0000e+00,7.5000e-01,\"a,\"\"b\"\"\rc\n\",-07\r\n") := by
+  decide +kernel
+
+example : ((fileText exP exDecls exRowsE).bind (readHist exP exDecls)) = some exRowsE := by
+  decide +kernel
 
 /-! ## restarts -/
 
